@@ -124,6 +124,18 @@ def generate(prop, seed, tier):
                 ops.append(o)
             elif mode == "same_gen" and prev["rs"]["kind"] == "gen":
                 ops.append(copy.deepcopy(prev))
+    # history: the object's parameters change (re-fit or plain assignment) between draws
+    for si, sl in enumerate(slots):
+        if sl["kind"] in ("dist", "model") and S.chance(0.35):
+            fam = sl["family"] if sl["kind"] == "dist" else sl["dims"][0]["family"]
+            if sl["kind"] == "model" and sl["dims"][0]["cond_on"] is not None:
+                continue
+            newp = _gen_params(S, fam, wide=False)
+            pos = S.int(1, len(ops))
+            ops.insert(pos, {"op": "mutate", "slot": si, "how": S.pick(["assign", "fit"]), "params": newp, "dseed": S.sub("mut", si)})
+            ops.insert(pos + 1, {"op": "draw", "slot": si, "n": 20000, "rs": {"kind": "int", "seed": S.sub("after", si) % 1000}})
+            if S.chance(0.5):
+                ops.insert(max(0, pos - 1), {"op": "draw", "slot": si, "n": S.pick([10, 2000]), "rs": {"kind": "int", "seed": 7}})
     # direct draws from a conditional dimension with a vector of conditioning values: (n, len) draws
     for si, sl in enumerate(slots):
         if sl["kind"] == "model" and S.chance(0.5):
@@ -304,13 +316,40 @@ def check_cdraw(run, sl, model, op, x):
     return True
 
 
+def _mutate(sl, obj, op):
+    """change the parameters of a live object: plain attribute assignment or a re-fit"""
+    from engines.fit_c11 import draw as draw_ref
+
+    target = obj if sl["kind"] == "dist" else obj.distributions[0]
+    fam = sl["family"] if sl["kind"] == "dist" else sl["dims"][0]["family"]
+    if op["how"] == "assign":
+        for k, v in op["params"].items():
+            setattr(target, k, v)
+    else:
+        # start the estimator near the new truth: started far away, MLE of the three-parameter families
+        # can run into regimes that floating point cannot represent (seen: ExpWeibull delta = 0.004,
+        # beta = 82: 6 % of the mass underflows to x = 0), which is not the sampler's doing
+        for k, v in op["params"].items():
+            setattr(target, k, v * 1.1 if v > 0 else v)
+        data = draw_ref(fam, op["params"], 400, op["dseed"])
+        try:
+            target.fit(data)
+        except Exception:  # noqa: BLE001 - a failed estimator leaves whatever it leaves; later draws are judged against the object's own cdf
+            pass
+
+
 class DrawRaised(Exception):
     def __init__(self, k, exc):
         self.k, self.exc = k, exc
 
 
-def _one_pass(scen, objs, which, run=None):
-    """Execute the schedule once; returns list of arrays (one per draw op)."""
+class StopRun(Exception):
+    pass
+
+
+def _one_pass(scen, objs, which, on_draw=None):
+    """Execute the schedule once; returns list of arrays (one per draw op).  on_draw(k, op, x)
+    is called right after each draw, while the object still is in the state it was drawn from."""
     gens = [np.random.default_rng(s) for s in scen["gens"]]
     out = []
     seams.pin_global(core.h64(scen["seed"], "pass", which))
@@ -322,10 +361,16 @@ def _one_pass(scen, objs, which, run=None):
             out.append(None)
             continue
         obj = objs[op["slot"]]
+        if op["op"] == "mutate":
+            _mutate(scen["slots"][op["slot"]], obj, op)
+            out.append(None)
+            continue
         rs = op["rs"]
         try:
             if op["op"] == "cdraw":
                 out.append(np.asarray(obj.distributions[op["dim"]].draw_sample(op["n"], np.array(op["given"], dtype=float), random_state=int(rs["seed"]))))
+                if on_draw is not None:
+                    on_draw(k, op, out[-1])
                 continue
             if rs["kind"] == "none":
                 seams.pin_global(rs["pin"])
@@ -338,6 +383,8 @@ def _one_pass(scen, objs, which, run=None):
             out.append(np.asarray(x))
         except Exception as e:  # noqa: BLE001 - an exception from the sampler is an outcome of the run
             raise DrawRaised(k, e)
+        if on_draw is not None:
+            on_draw(k, op, out[-1])
     return out
 
 
@@ -370,37 +417,47 @@ def _execute(prop, scen):
                 run.inconclusive = f"workload: predefined model could not be fitted to the sub-sample ({str(e)[:50]})"
                 return run
             raise
-        A = _one_pass(scen, objs, "A")
-        n_skews = sum(1 for o in scen["ops"] if o["op"] == "skew")
-        if n_skews:
-            run.count("fault:F3-global-rng-skew", n_skews)
-        # ---- per-draw checks (pass A) ----------------------------------------------------------------
-        for k, (op, x) in enumerate(zip(scen["ops"], A)):
-            if op["op"] == "skew":
-                run.event("skew", op, None, ["F3"])
-                continue
+        def on_draw(k, op, x):
             if op["op"] == "cdraw":
                 run.event("cdraw", [op["slot"], op["dim"], op["n"], op["given"]], x)
                 if not check_cdraw(run, scen["slots"][op["slot"]], objs[op["slot"]], op, x):
-                    return run
-                continue
+                    raise StopRun()
+                return
             sl = scen["slots"][op["slot"]]
             run.event("draw", [op["slot"], op["n"], op["rs"]], x)
             if not check_shape_support(run, sl, objs[op["slot"]], x, op["n"]):
-                return run
+                raise StopRun()
             if op["n"] >= 2000:
                 ok = check_law_dist(run, sl, objs[op["slot"]], x, k) if sl["kind"] == "dist" else check_law_model(run, sl, objs[op["slot"]], x)
                 if not ok:
                     run.violations[-1]["detail"]["op_index"] = k
                     run.violations[-1]["detail"]["random_state"] = op["rs"]
-                    return run
+                    run.violations[-1]["detail"]["parameters_changed_before"] = any(o["op"] == "mutate" and o["slot"] == op["slot"] for o in scen["ops"][:k])
+                    raise StopRun()
+
+        try:
+            A = _one_pass(scen, objs, "A", on_draw)
+        except StopRun:
+            return run
+        n_skews = sum(1 for o in scen["ops"] if o["op"] == "skew")
+        if n_skews:
+            run.count("fault:F3-global-rng-skew", n_skews)
+        n_mut = sum(1 for o in scen["ops"] if o["op"] == "mutate")
+        if n_mut:
+            run.count("probe:parameters-changed-between-draws", n_mut)
         # ---- seeding relations within pass A --------------------------------------------------------
-        draws = [(k, op, x) for k, (op, x) in enumerate(zip(scen["ops"], A)) if op["op"] == "draw"]
+        epoch = {}
+        draws = []
+        for k, (op, x) in enumerate(zip(scen["ops"], A)):
+            if op["op"] == "mutate":
+                epoch[op["slot"]] = epoch.get(op["slot"], 0) + 1
+            if op["op"] == "draw":
+                draws.append((k, op, x, epoch.get(op["slot"], 0)))
         for a in range(len(draws)):
-            ka, oa, xa = draws[a]
+            ka, oa, xa, ea = draws[a]
             for b in range(a + 1, len(draws)):
-                kb, ob, xb = draws[b]
-                if oa["slot"] != ob["slot"] or oa["n"] != ob["n"]:
+                kb, ob, xb, eb = draws[b]
+                if oa["slot"] != ob["slot"] or oa["n"] != ob["n"] or ea != eb:
                     continue
                 ra, rb = oa["rs"], ob["rs"]
                 if ra["kind"] == rb["kind"] == "int":
@@ -423,10 +480,12 @@ def _execute(prop, scen):
                         run.violate("I3-generator-state-advances", scen["slots"][oa["slot"]]["kind"], {"ops": [ka, kb], "n": oa["n"]})
                         return run
         # ---- pass B: identically seeded Generators, different global-RNG skews -----------
-        objsB = [build_slot(s) for s in scen["slots"]] if (scen["seed"] % 2) else objs
+        has_mut = any(o["op"] == "mutate" for o in scen["ops"])
+        seams.pin_global(core.h64(scen["seed"], "build"))
+        objsB = [build_slot(s) for s in scen["slots"]] if (scen["seed"] % 2 or has_mut) else objs
         B = _one_pass(scen, objsB, "B")
         for k, (op, xa, xb) in enumerate(zip(scen["ops"], A, B)):
-            if op["op"] == "skew":
+            if op["op"] in ("skew", "mutate"):
                 continue
             run.count("replay_comparisons")
             if xa.shape != xb.shape or not np.array_equal(xa, xb):
@@ -485,5 +544,5 @@ def describe(prop):
             "the reference law is the object's own (conditional) cdf, as the property states; von Mises samples are compared modulo 2 pi",
             "conditional independence is probed by uniformity of the Rosenblatt image within 5 quantile bins of every earlier coordinate",
         ],
-        "probes": [],
+        "probes": ["parameters-changed-between-draws"],
     }
